@@ -65,6 +65,7 @@ MICROS2 = [10, 100, 1500, 10000, 99999, 100001, 500000, 999000, 999499, 999500, 
 UNIT = {("second", "exact"): 1000000, ("millisecond", "exact"): 1000}
 FINDING_YEAR = "C15-year-below-1000-not-zero-padded"
 FINDING_FOLD = "C15-stixdatetime-drops-fold"
+FINDING_SUBSEC = "C15-subsecond-utcoffset-truncated-before-utc-conversion"
 FINDING_COPY = "C15-stixdatetime-copy-pickle-lose-precision"
 
 HEADER = """From Coq Require Import ZArith List String.
@@ -485,11 +486,12 @@ def coq_input(inp, nm="NaiveKept"):
 class Variants:
     """What the code under check does where several behaviours are compatible with the model (selected at run time)."""
 
-    def __init__(self, ym="Pad4", nm="NaiveUtc", fold="kept", lose=()):
-        self.ym, self.nm, self.fold, self.lose = ym, nm, fold, set(lose)
+    def __init__(self, ym="Pad4", nm="NaiveUtc", fold="kept", lose=(), subsec="local_first"):
+        self.ym, self.nm, self.fold, self.lose, self.subsec = ym, nm, fold, set(lose), subsec
 
     def describe(self):
-        return {"year_mode": self.ym, "naive_mode": self.nm, "fold": self.fold, "precision_lost_by": sorted(self.lose)}
+        return {"year_mode": self.ym, "naive_mode": self.nm, "fold": self.fold, "precision_lost_by": sorted(self.lose),
+                "subsecond_offsets": self.subsec}
 
 
 def loses(case, V):
@@ -500,6 +502,17 @@ def loses(case, V):
 def effective_input(case, V):
     """The input as the model sees it: for a zone, the UTC offset the code under check will use."""
     inp = case["in"]
+    if V.subsec == "utc_first" and "dt" in inp and (inp.get("off") or 0) % 1000000 != 0 and \
+            (case["k"] in ("parse", "prop", "obj") or "src" in inp):
+        # the repaired parse_into_datetime moves such a value to UTC before anything else: same as being given
+        # the UTC fields
+        try:
+            f = inp["dt"]
+            d = dt.datetime(*f[:6]) + dt.timedelta(microseconds=f[6] - inp["off"])
+            inp = dict(inp, dt=[d.year, d.month, d.day, d.hour, d.minute, d.second, d.microsecond], off=0)
+        except (OverflowError, ValueError):
+            pass
+        return inp
     if inp.get("tz") == "zone" and V.fold == "dropped" and \
             (case["k"] in ("parse", "prop", "obj") or "src" in inp or case.get("via") == "deepcopy"):
         inp = dict(inp)
@@ -696,9 +709,12 @@ def oracle(cases, results, stats=None):
               unit = UNIT.get((p, c), 1)
               want = (t_in // unit) * unit
               if subsec:
-                  # out of the property's realistic domain (see MANIFEST note): only counted
                   stats["subsecond_offset_cases"] = stats.get("subsecond_offset_cases", 0) + 1
                   stats["subsecond_offset_deviating"] = stats.get("subsecond_offset_deviating", 0) + int(t_out != want)
+              if subsec and t_out != want and t_out == ((((t_in + off) // unit) * unit - off) // unit) * unit:
+                  # truncated in the value's own zone, converted to UTC, truncated again when written
+                  viol("written instant is not the input instant truncated to the precision (written %s us, expected %s us)"
+                       % (t_out, want), FINDING_SUBSEC)
               elif t_out != want:
                   f = None
                   if fold_class and t_out == ((t_in + inp["off"] - inp["off0"]) // unit) * unit:
@@ -709,7 +725,7 @@ def oracle(cases, results, stats=None):
                        % (t_out, want), f)
               if not digits_ok(p, c, frac, t_out % 1000000):
                   viol("wrong number of fractional digits for precision %s/%s" % (p, c), FINDING_COPY if copy_class else None)
-              if not subsec and not ((fold_class or copy_class) and t_out != want):      # already reported above
+              if not ((fold_class or copy_class or subsec) and t_out != want):      # already reported above
                   groups.setdefault((p, c), []).append((t_in, t_out, case, text))
           if again != text:
               viol("write-read-write is not a fixed point (second write gives %s)" % again,
@@ -747,6 +763,9 @@ FOLD_PROBE = {"k": "parse", "p": "any", "c": "exact",
                      "zone": "America/New_York", "fold": 1}}
 
 
+SUBSEC_PROBE = {"k": "parse", "p": "millisecond", "c": "exact", "in": {"dt": [2020, 1, 1, 12, 0, 0, 700], "off": 500, "tz": "std"}}
+
+
 def copy_probe(how):
     return {"k": "prop", "p": "millisecond", "c": "exact", "via": how,
             "in": {"dt": [2020, 1, 2, 3, 4, 5, 120000], "off": 0, "tz": "utc"}}
@@ -757,7 +776,7 @@ def select_variant(run):
     parse_into_datetime (kept naive / localised: both satisfy the property); a repeated wall time with fold=1
     (fold kept / dropped when a STIXdatetime is built from a datetime); a cleaned value copied, deep-copied,
     pickled before it is written (precision attributes kept / lost)."""
-    probes = [WITNESS, NAIVE_PROBE, FOLD_PROBE] + [copy_probe(h) for h in VIAS]
+    probes = [WITNESS, NAIVE_PROBE, FOLD_PROBE] + [copy_probe(h) for h in VIAS] + [SUBSEC_PROBE]
     res = common.run_impl("c15_impl", probes, procs=1)
     V = Variants()
     o, _ = split_result(res[0])
@@ -775,6 +794,11 @@ def select_variant(run):
         V.fold = "dropped"
     elif not (len(parts) >= 3 and parts[0] == "OK" and parts[2] == "-18000000000"):
         run.broken.append(Broken("correspondence", "fold probe matches neither variant", {"observed": res[2]}))
+    o, _ = split_result(res[-1])
+    if o.endswith(" 2020-01-01T12:00:00.000Z"):
+        V.subsec = "utc_first"
+    elif not o.endswith(" 2020-01-01T11:59:59.999Z"):
+        run.broken.append(Broken("correspondence", "sub-second offset probe matches neither variant", {"observed": res[-1]}))
     for how, r in zip(VIAS, res[3:]):
         o, _ = split_result(r)
         if o == "OK 2020-01-02T03:04:05.12Z":
@@ -898,7 +922,7 @@ def check(run):
     ]
     run.assumptions += [
         "instants are those of years 1..9999 (Python datetime range); conversions that leave it raise OverflowError and write nothing",
-        "UTC offsets are whole seconds (theorem write_aware needs the offset to be a multiple of the precision unit; "
+        "theorems: UTC offsets are whole seconds (theorem write_aware needs the offset to be a multiple of the precision unit; "
         "subsecond_offset_excluded shows the hypothesis cannot be dropped). Sub-second offsets exist only as hand-built "
         "datetime.timezone(timedelta(microseconds=..)) objects; they are generated for the correspondence (the model reproduces "
         "the code on them) but are outside the oracle; counts under coverage.out_of_domain",
